@@ -236,30 +236,45 @@ def run(ctx: Context) -> None:
         ctx.add("R3", f"{active.qualname}::alive-only", pos, active.loc(), "" if pos else "the list of active children is not filtered by process.is_alive(): heartbeats would be reported for dead workers and their invocations never recovered")
     # base runner
     base = repo.cls("BaseRunner")
-    rep = base.methods.get("_report_child_runner_heartbeats")
-    if rep is None:
-        raise AnalysisError("anchor-vanished: BaseRunner._report_child_runner_heartbeats")
+    runf = base.methods.get("run")
+    if runf is None:
+        raise AnalysisError("anchor-vanished: BaseRunner.run")
+    # the report may live in a helper of its own or (single-use helpers are inlined by the loader) in run() itself
+    rep = base.methods.get("_report_child_runner_heartbeats") or runf
     src = set()
     for n in walk_no_nested(rep.node):
         if isinstance(n, ast.NamedExpr) and isinstance(n.value, ast.Call) and call_name(n.value) == "get_active_child_runner_ids":
             src.add(n.target.id)
         if isinstance(n, ast.Assign) and isinstance(n.value, ast.Call) and call_name(n.value) == "get_active_child_runner_ids":
             src |= {t.id for t in n.targets if isinstance(t, ast.Name)}
-    regs = [x for x in calls_in(rep.node) if call_name(x) == "register_runner_heartbeats"]
-    ok = len(regs) == 1 and regs[0].args and ((isinstance(regs[0].args[0], ast.Name) and regs[0].args[0].id in src) or (isinstance(regs[0].args[0], ast.Call) and call_name(regs[0].args[0]) == "get_active_child_runner_ids"))
-    ctx.add("R3", f"{rep.qualname}::reports-exactly-the-alive-list", bool(ok), rep.loc(), "" if ok else "register_runner_heartbeats is not given exactly get_active_child_runner_ids()")
-    runf = base.methods.get("run")
-    if runf is None:
-        raise AnalysisError("anchor-vanished: BaseRunner.run")
+    regs = [x for x in calls_in(rep.node) if call_name(x) == "register_runner_heartbeats" and x.args and ((isinstance(x.args[0], ast.Name) and x.args[0].id in src) or (isinstance(x.args[0], ast.Call) and call_name(x.args[0]) == "get_active_child_runner_ids"))]
+    others = [x for x in calls_in(rep.node) if call_name(x) == "register_runner_heartbeats" and x not in regs and rep is not runf]
+    ok = len(regs) == 1 and not others
+    ctx.add("R3", f"{base.qualname}::reports-exactly-the-alive-list", bool(ok), rep.loc(regs[0]) if regs else rep.loc(), "" if ok else "register_runner_heartbeats is not given exactly get_active_child_runner_ids()")
     loops = [n for n in walk_no_nested(runf.node) if isinstance(n, ast.While)]
     ok = False
     for l in loops:
-        names = [call_name(x) for st in l.body for x in ast.walk(st) if isinstance(x, ast.Call) and isinstance(st, ast.Expr)]
-        top = [call_name(st.value) for st in l.body if isinstance(st, ast.Expr) and isinstance(st.value, ast.Call)]
-        if "_report_child_runner_heartbeats" in top and "runner_loop_iteration" in top:
-            i, j = top.index("_report_child_runner_heartbeats"), top.index("runner_loop_iteration")
-            k = top.index("_check_atomic_services") if "_check_atomic_services" in top else len(top)
-            ok = i < k and i < j or (i < j and k == len(top))
+        body = l.body
+        while len(body) == 1 and isinstance(body[0], ast.Try):
+            body = body[0].body
+
+        def idx(pred):
+            for k_, st in enumerate(body):
+                if any(pred(x) for x in ast.walk(st)):
+                    return k_, st
+            return None, None
+
+        def is_report(x):
+            return (isinstance(x, ast.Call) and call_name(x) == "_report_child_runner_heartbeats") or any(x is r for r in regs)
+
+        i_, st_i = idx(is_report)
+        j_, _ = idx(lambda x: isinstance(x, ast.Call) and call_name(x) == "runner_loop_iteration")
+        k_, _ = idx(lambda x: isinstance(x, ast.Call) and call_name(x) in ("_check_atomic_services", "should_run_atomic_service"))
+        if i_ is None or j_ is None:
+            continue
+        # unconditional apart from "there are children": a bare call, or `if <ids from get_active_child_runner_ids>: register(...)`
+        plain = (isinstance(st_i, ast.Expr)) or (isinstance(st_i, ast.If) and not st_i.orelse and any(isinstance(x, ast.Call) and call_name(x) == "get_active_child_runner_ids" for x in ast.walk(st_i.test)) or (isinstance(st_i, ast.If) and isinstance(st_i.test, ast.Name) and st_i.test.id in src))
+        ok = plain and i_ < j_ and (k_ is None or i_ < k_)
     ctx.add("R3", f"{runf.qualname}::heartbeats-every-iteration", ok, runf.loc(), "" if ok else "the run loop does not unconditionally report child heartbeats at the start of every iteration (before the atomic services / recovery)")
     ctx.exhaustive = True
     ctx.not_decided += [
